@@ -104,9 +104,16 @@ func main() {
 				sub := NewReport(id, tier)
 				runChecker(id, p, sub)
 				suffix := fmt.Sprintf(" [%s]", strings.TrimSpace(strings.Join(append(opt.Tags, opt.Env...), " ")))
+				primary := map[string]bool{}
+				for _, o := range r.Obls {
+					primary[o.Rule+"|"+o.Instance+"|"+o.Site] = true
+				}
 				for _, o := range sub.Obls {
 					if o.Verdict == "ok" {
 						continue // keep evidence small: only deviations of secondary configs are listed
+					}
+					if primary[o.Rule+"|"+o.Instance+"|"+o.Site] {
+						continue // the same finding at the same site was already reported for the primary configuration
 					}
 					o.By += suffix
 					r.Obls = append(r.Obls, o)
